@@ -21,7 +21,7 @@ TECHNIQUE = ('exhaustive log-grid enumeration of cdp_delta/cdp_eps/cdp_rho again
              'checks the bisection-loop invariants in every loop state of the real functions')
 RULE = ('case = (function, grid point); grids: rho in [1e-6,1e2], eps in [1e-3,1e2], delta in [1e-15,0.5] (17x11x8 quick, 65x41x31 thorough) plus '
         'VERIF_SEED-drawn off-grid points; trace monitor: every iteration of the three bisection loops on a sub-grid is a state, every bound '
-        'update a transition. non-trivial = every grid point; distinct = digest of (function, arguments).')
+        'update a transition (a loop that cannot be located in the source is outcome trace-unavailable, not an error); types jobs: arguments spelled as int / np.int64 / np.float32 / 0-d array in either position against the float call. non-trivial = every grid point; distinct = digest of (function, arguments).')
 LEVEL_TEXT = ('The conversions are evaluated on dense log grids covering the stated ranges; soundness, tightness against an independent minimiser of '
               'the Renyi-order bound, the exact Gaussian trade-off, monotonicity between adjacent grid points and the inverse relations are '
               'checked at every point. On a sub-grid every loop state of the binary searches is observed and the invariants written next to '
